@@ -377,7 +377,13 @@ func genBlock(t *rapid.T, k storeKind, w *world, num uint64, o genOpts) blkSpec 
 			e := evSpec{Kind: kind}
 			switch kind {
 			case "bridge":
-				d := genBridge(t)
+				prev := append([]bridgesync.Bridge{}, w.bridges...)
+				for _, pe := range b.Evs {
+					if pe.Bridge != nil {
+						prev = append(prev, *pe.Bridge)
+					}
+				}
+				d := genBridgeOrRepeat(t, prev)
 				d.BlockNum, d.BlockPos, d.DepositCount, d.BlockTimestamp = num, pos, dc, num*12
 				dc++
 				e.Bridge = &d
